@@ -1231,7 +1231,8 @@ Definition vol_ok (vb : bytes) : Prop :=
     exists h kids, parse_fv d pol (vb ++ rest) off rz = Ok (NVol h vb kids, 255) /\
       v_length h = zlen vb /\
       forall ffs, exists h' kids',
-        asm (NVol h vb kids) (255, ffs) = Ok (NVol h' vb kids', (255, ffs)).
+        asm (NVol h vb kids) (255, ffs) = Ok (NVol h' vb kids', (255, ffs)) /\
+        fv_polarity (v_attrs h') = 255.
 
 (* ---------- R9: a volume of files ---------- *)
 
@@ -1319,7 +1320,7 @@ Proof.
   change (set_polarity 255 255) with (Some 255). cbv beta iota. rewrite Ek. cbn [bind].
   unfold vol_asm. unfold asm_vol.
   destruct kids' as [|k0 kr].
-  { cbn [bind]. eexists; eexists; reflexivity. }
+  { cbn [bind]. eexists; eexists. split; [reflexivity|exact Epol]. }
   cbv beta iota. cbn [v_length v_blocks v_dataoff v_hdrlen v_resizable v_guid].
   set (kids' := k0 :: kr) in *.
   rewrite Lv. replace (len <? len) with false by lia. change (72 <? 72) with false. cbv iota.
@@ -1392,7 +1393,7 @@ Proof.
   assert (S50' : splice 50 (le_enc 2 ck) (hdr0 ++ tail) = hdr ++ tail).
   { unfold hdr0, hdr. rewrite (E50 0), (E50 ck). rewrite <- L50. apply splice_mid. rewrite !le2'. reflexivity. }
   rewrite S50'. cbn [bind]. cbv beta iota. cbn [bind fst snd].
-  eexists; eexists. reflexivity.
+  eexists; eexists. split; [reflexivity|exact Epol].
 Qed.
 
 (* ---------- R6: firmware-volume-image sections (nesting) ---------- *)
@@ -1405,7 +1406,7 @@ Proof.
   rewrite parse_section_S.
   destruct (Hv d ltac:(lia) 255 [] 0 true (or_intror eq_refl)) as (h & kids & Ep & El & Ea).
   rewrite app_nil_r in Ep.
-  destruct (Ea false) as (h' & kids' & Ea').
+  destruct (Ea false) as (h' & kids' & Ea' & _).
   eexists; eexists. split; [|split].
   - sec_start 23 vb rest. change (23 =? 2) with false. change (23 =? 21) with false.
     change (23 =? 20) with false. change (23 =? 23) with true. cbv iota.
@@ -1421,6 +1422,266 @@ Proof.
       destruct (gen_sec_header hh vb) as [h2 nb] eqn:G end.
     cbn [fst snd] in E1, E2. rewrite E1, E2. cbn [s_type sec_default].
     replace (16777215 <? 4 + zlen vb) with false by lia. eexists; eexists; reflexivity.
+Qed.
+
+(* ---------- R10: BIOS regions ---------- *)
+
+(* copying the elements over the erased buffer rebuilds their concatenation *)
+Lemma copy_elems_concat pol elems : forall done k,
+  0 <= k -> zlen (concat (map node_buf elems)) <= k ->
+  copy_elems (done ++ zrepeat pol k) (zlen done) elems =
+  Ok (done ++ concat (map node_buf elems) ++ zrepeat pol (k - zlen (concat (map node_buf elems)))).
+Proof.
+  induction elems as [|e r IH]; intros done k Hk Hle.
+  - cbn [map concat copy_elems app]. change (zlen (@nil Z)) with 0. rewrite Z.sub_0_r. reflexivity.
+  - cbn [map concat copy_elems]. cbn [map concat] in Hle. set (eb := node_buf e) in *.
+    rewrite zlen_app in Hle. pose proof (zlen_nonneg eb) as He.
+    pose proof (zlen_nonneg (concat (map node_buf r))) as Hr.
+    pose proof (zlen_nonneg done) as Hd.
+    rewrite zlen_app, zlen_zrepeat by lia.
+    replace (zlen done + k <? zlen done + zlen eb) with false by lia.
+    (* the splice writes eb over the first zlen eb erased bytes *)
+    assert (Es : splice (zlen done) eb (done ++ zrepeat pol k) = (done ++ eb) ++ zrepeat pol (k - zlen eb)).
+    { replace (zrepeat pol k) with (zrepeat pol (zlen eb) ++ zrepeat pol (k - zlen eb))
+        by (rewrite zrepeat_app by lia; f_equal; lia).
+      rewrite splice_mid by (rewrite zlen_zrepeat by lia; reflexivity).
+      rewrite <- app_assoc. reflexivity. }
+    rewrite Es. replace (zlen done + zlen eb) with (zlen (done ++ eb)) by (rewrite zlen_app; reflexivity).
+    rewrite IH by (unfold bytes in *; lia). rewrite zlen_app. rewrite <- !app_assoc.
+    replace (k - zlen eb - zlen (concat (map node_buf r))) with (k - (zlen eb + zlen (concat (map node_buf r))))
+      by (unfold bytes in *; lia).
+    reflexivity.
+Qed.
+
+Definition vol_node_of (n : node) : bool := match n with NVol _ _ _ => true | _ => false end.
+Definition vol_pol_ok (n : node) : Prop :=
+  match n with NVol h _ _ => fv_polarity (v_attrs h) = 255 | _ => True end.
+
+(* what the region-level theorem needs of one (padding, volume) pair and of the trailing padding:
+   the 8-byte-stepped signature scan finds the volume exactly after the padding, whatever follows *)
+Definition pair_scan_ok (p v : bytes) : Prop :=
+  forall rest, find_fv_offset (p ++ v ++ rest) = zlen p.
+
+Lemma parse_bios_region d l trail :
+  Forall (fun pv => pair_scan_ok (fst pv) (snd pv) /\ bytes_ok (fst pv) = true /\
+                    (forall pol rest off rz, (pol = 240 \/ pol = 255) ->
+                       exists h kids, parse_fv d pol (snd pv ++ rest) off rz = Ok (NVol h (snd pv) kids, 255) /\
+                         v_length h = zlen (snd pv) /\
+                         forall ffs, exists h' kids',
+                           asm (NVol h (snd pv) kids) (255, ffs) = Ok (NVol h' (snd pv) kids', (255, ffs)) /\
+                           fv_polarity (v_attrs h') = 255) /\
+                    72 <= zlen (snd pv)) l ->
+  find_fv_offset trail < 0 ->
+  forall n abs pol, (pol = 240 \/ pol = 255) -> (length l < n)%nat ->
+  exists elems, parse_bios dec u2s nvar d n pol (region_bytes l trail) abs =
+                  Ok (elems, match l with [] => pol | _ => 255 end) /\
+    concat (map node_buf elems) = region_bytes l trail /\
+    (existsb vol_node_of elems = match l with [] => false | _ => true end) /\
+    forall ffs, exists elems', asm_elems elems (255, ffs) = Ok (elems', (255, ffs)) /\
+      map node_buf elems' = map node_buf elems /\ map vol_node_of elems' = map vol_node_of elems /\
+      Forall vol_pol_ok elems'.
+Proof.
+  induction 1 as [|[p v] r (Hscan & Obp & Hvol & Hl72) Hr IH]; intros Htrail n abs pol Hpol Hn.
+  - destruct n as [|n]; [cbn in Hn; lia|]. cbn [region_bytes parse_bios].
+    replace (find_fv_offset trail <? 0) with true by lia.
+    destruct (zlen trail =? 0) eqn:E.
+    + exists []. split; [reflexivity|]. split.
+      { cbn [map concat]. destruct trail; [reflexivity|]. rewrite zlen_cons in E. pose proof (zlen_nonneg trail). lia. }
+      split; [reflexivity|]. intros ffs. exists []. repeat split; try reflexivity. constructor.
+    + exists [NPad abs trail]. split; [reflexivity|]. split; [cbn [map concat node_buf]; apply app_nil_r|].
+      split; [reflexivity|]. intros ffs. exists [NPad abs trail]. repeat split; try reflexivity.
+      constructor; [exact I|constructor].
+  - destruct n as [|n]; [cbn in Hn; lia|]. cbn [length] in Hn. cbn [fst snd] in *.
+    cbn [region_bytes parse_bios].
+    rewrite (Hscan (region_bytes r trail)).
+    pose proof (zlen_nonneg p) as Hp.
+    replace (zlen p <? 0) with false by lia.
+    rewrite zskipn_app_exact.
+    destruct (Hvol pol (region_bytes r trail) (abs + zlen p) false Hpol) as (h & kids & Ep & El & Ea).
+    rewrite Ep. cbn [bind]. rewrite El. replace (zlen v =? 0) with false by lia.
+    replace (zskipn (zlen p + zlen v) (p ++ v ++ region_bytes r trail)) with (region_bytes r trail).
+    2:{ rewrite app_assoc. rewrite <- zlen_app. symmetry. apply zskipn_app_exact. }
+    destruct (IH Htrail n (abs + zlen p + zlen v) 255 (or_intror eq_refl) ltac:(lia))
+      as (elems & Eb & Ec & Ex & Easm).
+    rewrite Eb. cbn [bind].
+    replace (match r with [] => 255 | _ :: _ => 255 end) with 255 by (destruct r; reflexivity).
+    eexists. split; [reflexivity|].
+    assert (Ezf : zfirstn (zlen p) (p ++ v ++ region_bytes r trail) = p) by apply zfirstn_app_exact.
+    rewrite Ezf.
+    split.
+    { destruct (0 <? zlen p) eqn:E0.
+      - cbn [app map concat node_buf]. rewrite Ec. reflexivity.
+      - assert (p = []) by (destruct p; [reflexivity|rewrite zlen_cons in E0; pose proof (zlen_nonneg p); lia]).
+        subst p. cbn [app map concat node_buf]. rewrite Ec. reflexivity. }
+    split.
+    { destruct (0 <? zlen p); cbn [app existsb vol_node_of orb]; reflexivity. }
+    intros ffs. destruct (Ea ffs) as (h' & kids' & Ea' & Epol'). destruct (Easm ffs) as (elems' & Ee & Em & Ev & Efp).
+    assert (Econs : forall x l st, asm_elems (x :: l) st =
+              do xs <- asm x st; let '(x', st1) := xs in
+              do rs <- asm_elems l st1; let '(r', st2) := rs in Ok (x' :: r', st2)) by reflexivity.
+    assert (Epad : forall o b st, asm (NPad o b) st = Ok (NPad o b, st)) by reflexivity.
+    destruct (0 <? zlen p); cbn [app]; rewrite ?Econs, ?Epad; cbn [bind]; rewrite ?Econs, Ea'; cbn [bind];
+      rewrite Ee; cbn [bind];
+      eexists; (split; [reflexivity|]); cbn [map node_buf vol_node_of]; rewrite Em, Ev;
+      (split; [reflexivity|]); (split; [reflexivity|]); repeat (constructor; try exact I; try exact Epol'); exact Efp.
+Qed.
+
+Lemma zlen_region_ge l trail : Forall (fun pv : bytes * bytes => 72 <= zlen (snd pv)) l ->
+  72 * Z.of_nat (length l) <= zlen (region_bytes l trail).
+Proof.
+  induction 1 as [|[p v] r Hv Hr IH]; [cbn [length region_bytes]; pose proof (zlen_nonneg trail); lia|].
+  cbn [length region_bytes snd] in *. rewrite !zlen_app. pose proof (zlen_nonneg p). lia.
+Qed.
+
+Lemma first_fv_exists elems : existsb vol_node_of elems = true -> Forall vol_pol_ok elems ->
+  exists vh, first_fv elems = Some vh /\ fv_polarity (v_attrs vh) = 255.
+Proof.
+  induction elems as [|e r IH]; intros Hex Hf; [discriminate|].
+  inversion Hf as [|? ? He Hr]; subst. destruct e; cbn [existsb vol_node_of orb first_fv] in *;
+    try (apply IH; assumption). eexists; split; [reflexivity|exact He].
+Qed.
+
+(* the whole pipeline of C01 on a bare BIOS region: Parse, then Save *)
+Theorem region_save_identity l trail :
+  l <> [] ->
+  Forall (fun pv => pair_scan_ok (fst pv) (snd pv) /\ bytes_ok (fst pv) = true /\ vol_ok (snd pv)) l ->
+  find_fv_offset trail < 0 ->
+  exists d0, forall d, (d0 <= d)%nat ->
+    save_region dec enc u2s s2u nvar d (region_bytes l trail) = Ok (region_bytes l trail).
+Proof.
+  intros Hne Hl Htrail.
+  (* one depth that suits every volume *)
+  assert (Hd : exists d0, forall d, (d0 <= d)%nat ->
+     Forall (fun pv => pair_scan_ok (fst pv) (snd pv) /\ bytes_ok (fst pv) = true /\
+                    (forall pol rest off rz, (pol = 240 \/ pol = 255) ->
+                       exists h kids, parse_fv d pol (snd pv ++ rest) off rz = Ok (NVol h (snd pv) kids, 255) /\
+                         v_length h = zlen (snd pv) /\
+                         forall ffs, exists h' kids',
+                           asm (NVol h (snd pv) kids) (255, ffs) = Ok (NVol h' (snd pv) kids', (255, ffs)) /\
+                           fv_polarity (v_attrs h') = 255) /\
+                    72 <= zlen (snd pv)) l).
+  { clear Hne. induction Hl as [|[p v] r (Hs & Ob & (Ov & L72 & d2 & Hv)) Hr (d1 & IH)].
+    - exists 0%nat. intros; constructor.
+    - exists (Nat.max d1 d2). intros d Hd. constructor; [|apply IH; lia].
+      cbn [fst snd]. repeat split; auto. intros pol rest off rz Hp. apply Hv; auto. lia. }
+  destruct Hd as (d0 & Hd). exists d0. intros d Hdd. specialize (Hd d Hdd).
+  assert (H72 : Forall (fun pv : bytes * bytes => 72 <= zlen (snd pv)) l)
+    by (eapply Forall_impl; [|exact Hd]; intros a (_ & _ & _ & L); exact L).
+  pose proof (zlen_region_ge l trail H72) as Hlen.
+  set (buf := region_bytes l trail) in *.
+  unfold save_region, parse_region.
+  destruct (parse_bios_region d l trail Hd Htrail (Z.to_nat (zlen buf) + 1)%nat 0 240 (or_introl eq_refl))
+    as (elems & Ep & Ec & Ex & Easm); [unfold bytes in *; lia|].
+  fold buf in Ep, Ec. rewrite Ep. cbn [bind].
+  destruct l as [|pv0 l0]; [congruence|].
+  destruct (Easm false) as (elems' & Ee & Em & Ev & Efp).
+  unfold asm_bios. rewrite Ee. cbn [bind].
+  assert (Hex' : existsb vol_node_of elems' = true).
+  { assert (G : forall a b, map vol_node_of a = map vol_node_of b -> existsb vol_node_of a = existsb vol_node_of b).
+    { induction a as [|x a IHa]; intros [|y b] E; try discriminate; [reflexivity|].
+      cbn [map] in E. injection E as E1 E2. cbn [existsb]. rewrite E1, (IHa b E2). reflexivity. }
+    rewrite (G _ _ Ev). exact Ex. }
+  destruct (first_fv_exists elems' Hex' Efp) as (vh & Ef & Epol).
+  rewrite Ef. cbn [fst snd]. rewrite Epol. change (set_polarity 255 255) with (Some 255). cbv beta iota.
+  pose proof (copy_elems_concat 255 elems' [] (zlen buf) (zlen_nonneg buf)) as CC.
+  cbn [app] in CC. change (zlen (@nil Z)) with 0 in CC.
+  rewrite Em, Ec in CC. rewrite CC by lia. cbn [bind].
+  rewrite Z.sub_diag. change (zrepeat 255 0) with (@nil Z). rewrite app_nil_r. reflexivity.
+Qed.
+
+(* ---------- the signature scan: sufficient conditions for [pair_scan_ok] ---------- *)
+
+Lemma find_fvh_skip k : forall data o fuel, scan_clear k data o = true ->
+  o + 8 * Z.of_nat k + 4 < zlen data -> 0 <= o -> (k <= fuel)%nat ->
+  find_fvh fuel data o = find_fvh (fuel - k) data (o + 8 * Z.of_nat k).
+Proof.
+  induction k as [|k IH]; intros data o fuel Hs Hlen Ho Hf.
+  - rewrite Nat.sub_0_r. f_equal. lia.
+  - cbn [scan_clear] in Hs. apply andb_true_iff in Hs as [H1 H2].
+    destruct fuel as [|fuel]; [lia|]. cbn [find_fvh].
+    replace (o + 4 <? zlen data) with true by lia.
+    replace (bytes_eqb (sub o 4 data) [95; 70; 86; 72]) with false
+      by (symmetry; apply negb_true_iff; exact H1).
+    rewrite IH by (auto; lia). cbn [Nat.sub]. f_equal. lia.
+Qed.
+
+Lemma sub_prefix (a b : bytes) o len : 0 <= o -> 0 <= len -> o + len <= zlen a ->
+  sub o len (a ++ b) = sub o len a.
+Proof.
+  intros Ho Hl Hle. unfold sub, zfirstn, zskipn.
+  rewrite skipn_app. rewrite firstn_app.
+  replace (Z.to_nat len - length (skipn (Z.to_nat o) a))%nat with 0%nat
+    by (rewrite skipn_length; unfold zlen in *; lia).
+  cbn [firstn]. apply app_nil_r.
+Qed.
+
+Lemma scan_clear_prefix k : forall (a b : bytes) o, 0 <= o -> o + 8 * Z.of_nat k - 4 <= zlen a ->
+  scan_clear k (a ++ b) o = scan_clear k a o.
+Proof.
+  induction k as [|k IH]; intros a b o Ho Hle; [reflexivity|].
+  cbn [scan_clear]. rewrite sub_prefix by lia. rewrite IH by lia. reflexivity.
+Qed.
+
+(* a volume that starts after 8-aligned padding is found by the scan if no earlier window —
+   in the padding or in the first 40 bytes of the volume header — reads "_FVH" *)
+Lemma pair_scan_ok_intro p v :
+  (zlen p) mod 8 = 0 -> 72 <= zlen v -> sub 40 4 v = FVH ->
+  scan_clear (Z.to_nat (zlen p / 8) + 1) (p ++ v) 32 = true ->
+  pair_scan_ok p v.
+Proof.
+  intros Hm Hv Hsig Hclear rest.
+  pose proof (zlen_nonneg p) as Hp. pose proof (zlen_nonneg rest) as Hr.
+  pose proof (Z.div_mod (zlen p) 8 ltac:(lia)) as D. rewrite Hm in D.
+  set (k := (Z.to_nat (zlen p / 8) + 1)%nat) in *.
+  assert (Ek : 8 * Z.of_nat k = zlen p + 8) by (unfold k; lia).
+  unfold find_fv_offset. rewrite !zlen_app.
+  replace (zlen p + (zlen v + zlen rest) <? 32) with false by lia.
+  set (data := p ++ v ++ rest).
+  assert (Ld : zlen data = zlen p + zlen v + zlen rest) by (unfold data; rewrite !zlen_app; lia).
+  assert (Hc : scan_clear k data 32 = true).
+  { unfold data. rewrite app_assoc. rewrite scan_clear_prefix by (rewrite ?zlen_app; lia). exact Hclear. }
+  set (fuel := (Z.to_nat ((zlen p + (zlen v + zlen rest)) / 8) + 1)%nat).
+  assert (Hfuel : (k < fuel)%nat).
+  { unfold fuel, k.
+    assert ((zlen p / 8) + 9 <= (zlen p + (zlen v + zlen rest)) / 8).
+    { apply Z.div_le_lower_bound; lia. }
+    lia. }
+  rewrite (find_fvh_skip k data 32 fuel Hc) by lia.
+  destruct (fuel - k)%nat as [|f'] eqn:Ef; [lia|]. cbn [find_fvh].
+  replace (32 + 8 * Z.of_nat k + 4 <? zlen data) with true by lia.
+  replace (32 + 8 * Z.of_nat k) with (zlen p + 40) by lia.
+  assert (Es : sub (zlen p + 40) 4 data = FVH).
+  { unfold data. rewrite (sub_app_skip p _ (zlen p + 40) 4 (zlen p)) by lia.
+    replace (zlen p + 40 - zlen p) with 40 by lia. rewrite sub_prefix by lia. exact Hsig. }
+  rewrite Es. change (bytes_eqb FVH [95; 70; 86; 72]) with true. cbv iota. lia.
+Qed.
+
+(* trailing padding in which no window reads "_FVH" *)
+Lemma trail_scan_ok_intro trail :
+  scan_clear (Z.to_nat (zlen trail / 8) + 1) trail 32 = true -> find_fv_offset trail < 0.
+Proof.
+  intros Hc. unfold find_fv_offset. destruct (zlen trail <? 32) eqn:E; [lia|].
+  generalize dependent (Z.to_nat (zlen trail / 8) + 1)%nat. intros n.
+  assert (G : forall n o, 0 <= o -> scan_clear n trail o = true -> find_fvh n trail o < 0).
+  { clear. induction n as [|n IH]; intros o Ho Hs; cbn [find_fvh]; [lia|].
+    cbn [scan_clear] in Hs. apply andb_true_iff in Hs as [H1 H2].
+    destruct (o + 4 <? zlen trail); [|lia].
+    replace (bytes_eqb (sub o 4 trail) [95; 70; 86; 72]) with false
+      by (symmetry; apply negb_true_iff; exact H1).
+    apply IH; [lia|exact H2]. }
+  intros Hs. apply G; [lia|exact Hs].
+Qed.
+
+(* a volume built by the grammar carries the signature at offset 40 *)
+Lemma vol_bytes_sig zero g attrs reserved rev count bsize files free :
+  zlen zero = 16 -> zlen g = 16 ->
+  sub 40 4 (vol_bytes zero g attrs reserved rev count bsize files free) = FVH.
+Proof.
+  intros Lz Lg. unfold vol_bytes, fv_header. rewrite <- !app_assoc.
+  rewrite (sub_app_skip _ _ 40 4 16) by (auto; lia). change (40 - 16) with 24.
+  rewrite (sub_app_skip _ _ 24 4 16) by (auto; lia). change (24 - 16) with 8.
+  rewrite (sub_app_skip _ _ 8 4 8) by (try apply le8'; lia). change (8 - 8) with 0.
+  apply (sub_app_here [95; 70; 86; 72]). reflexivity.
 Qed.
 
 End Save.
